@@ -877,6 +877,7 @@ pub fn run_history(h: &History, checks: &Checks, fs: &SimFs) -> RunOut {
                 Event::Delete { .. } => stats.deletes_of_files += 1,
                 Event::Rotate { .. } => {}
                 Event::Sched { .. } => {}
+                Event::Group { .. } => {}
             }
         }
         stats.max_l0 = stats.max_l0.max(st.levels[0].len());
